@@ -124,11 +124,36 @@ def event(op, m=None, b=b'', kind='', d=None, rt=False, secret=''):
 
 # ------------------------------------------------------------------ drivers
 
+def _pick(n, *key):
+    import zlib
+    return zlib.crc32(repr(key).encode()) % n
+
+
+def cfg_as(bit_config, k):
+    """the same configuration handed over as another kind of mapping (k = 0: the dict itself)"""
+    import collections
+    import types
+    if k == 1:
+        return types.MappingProxyType(bit_config)            # a read-only view (site layout that must not be changed)
+    if k == 2:
+        return collections.OrderedDict(bit_config)
+    if k == 3:
+        return collections.ChainMap({}, bit_config)          # overrides (none) in front of a base layout
+    return bit_config
+
+
 def do_dumps(m, encoding, bit_config, hex_bitmap):
     m0 = copy.deepcopy(m)
+    cfgk = _pick(9, 'cfgd', sorted(m0, key=str)[:5], encoding) if isinstance(bit_config, dict) else 0
     try:
         with Watchdog(5.0):
-            b = iso8583.dumps(copy.deepcopy(m), encoding=encoding, iso_config=bit_config, hex_bitmap=hex_bitmap)
+            m1 = copy.deepcopy(m)
+            b = iso8583.dumps(m1, encoding=encoding, iso_config=cfg_as(bit_config, cfgk if cfgk < 4 else 0), hex_bitmap=hex_bitmap)
+            if _pick(7, 'again', len(b) if isinstance(b, (bytes, bytearray)) else 0, encoding) == 3:
+                # the same dictionary object handed to dumps a second time (the first call may have added to it)
+                b2 = iso8583.dumps(m1, encoding=encoding, iso_config=bit_config, hex_bitmap=hex_bitmap)
+                if b2 != b:
+                    raise RepeatDiffers('second dumps of the same dictionary object gave other bytes')
     except BaseException as ex:  # noqa
         o = exc_outcome(ex)
         e = event('dumps', m0, b'', o['kind'])
@@ -141,10 +166,25 @@ def do_dumps(m, encoding, bit_config, hex_bitmap):
     return event('dumps', m0, b, 'ok'), bytes(b)
 
 
+class RepeatDiffers(Exception):
+    pass
+
+
 def do_loads(b, encoding, bit_config, hex_bitmap, rt=False, secs=4.0, secret=''):
+    # the message as bytes, or as a mutable buffer that the caller re-uses straight after the call (recv_into style)
+    argk = _pick(8, 'arg', len(b), bytes(b[:6]), encoding)
+    arg = bytearray(b) if argk in (2, 5) else b
+    cfgk = _pick(9, 'cfgl', len(b), bytes(b[-3:])) if isinstance(bit_config, dict) else 0
     try:
         with Watchdog(secs):
-            d = iso8583.loads(b, encoding=encoding, iso_config=bit_config, hex_bitmap=hex_bitmap)
+            d = iso8583.loads(arg, encoding=encoding, iso_config=cfg_as(bit_config, cfgk if cfgk < 4 else 0), hex_bitmap=hex_bitmap)
+            if isinstance(arg, bytearray):
+                arg[:] = b'\xee' * len(arg)          # the buffer is re-used; what was returned may not change
+            if argk == 3:
+                # asked again: the same bytes give the same answer
+                d2 = iso8583.loads(b, encoding=encoding, iso_config=bit_config, hex_bitmap=hex_bitmap)
+                if pdict(d2) != pdict(d):
+                    raise RepeatDiffers('second loads of the same bytes gave another dictionary')
     except BaseException as ex:  # noqa
         o = exc_outcome(ex)
         e = event('loads', None, b, o['kind'], None, rt, secret)
@@ -187,6 +227,13 @@ def var_len(r, cap):
 
 def rdatetime(r, fmt):
     dirs = parse_fmt(fmt)
+    if 'H' in dirs and 'd' in dirs and 'm' in dirs and r.random() < 0.12:
+        # wall-clock times that some time zones skip or repeat (last Sundays of March / October, 02:00-02:59): a date-time
+        # element carries no zone, so these are ordinary values
+        y = r.choice((2021, 2024, 1999, 2037)) if ('Y' in dirs or 'y' in dirs) else 1900
+        mo = r.choice((3, 10))
+        last = max(d for d in range(25, 32) if datetime.date(y, mo, d).weekday() == 6)
+        return datetime.datetime(y, mo, last, 2, r.choice((0, 30, 59)) if 'M' in dirs else 0, r.choice((0, 59)) if 'S' in dirs else 0)
     if 'Y' in dirs:
         y = r.choice((1000, 1969, 1999, 2000, 2024, 9999, r.randrange(1000, 10000)))
     elif 'y' in dirs:
